@@ -31,6 +31,27 @@ pub fn dispatch(k: &str, t: &[&str]) -> Option<String> {
             let pres = match &cb.present { None => "none".to_string(), Some(p) => fmt_vec(p) };
             Some(format!("{} {} {} {}", cb.length, kind, data, pres))
         }
+        "intcol_encode" => {
+            use crate::mem_store::codec::CodecOp;
+            let mut b = IntColBuffer::default();
+            for v in vec_of::<i64>(t[0]) { b.push(v); }
+            let present = if t[1] == "none" { None } else { Some(vec_of::<u8>(t[1])) };
+            let col = b.finalize("x", present);
+            let ops: Vec<String> = col.codec().ops().iter().map(|o| match o {
+                CodecOp::Add(t, v) => format!("Add:{:?}:{}", t, v),
+                CodecOp::Delta(t) => format!("Delta:{:?}", t),
+                CodecOp::ToI64(t) => format!("ToI64:{:?}", t),
+                CodecOp::PushDataSection(k) => format!("PushDataSection:{}", k),
+                CodecOp::Nullable => "Nullable".to_string(),
+                other => format!("{:?}", other).split('(').next().unwrap().to_string(),
+            }).collect();
+            let (kind, data) = match &col.data()[0] {
+                DataSection::U8(v) => ("U8", fmt_vec(v)), DataSection::U16(v) => ("U16", fmt_vec(v)), DataSection::U32(v) => ("U32", fmt_vec(v)),
+                DataSection::U64(v) => ("U64", fmt_vec(v)), DataSection::I64(v) => ("I64", fmt_vec(v)), _ => ("other", "[]".to_string()),
+            };
+            let pres = if col.data().len() > 1 { match &col.data()[1] { DataSection::Bitvec(p) => fmt_vec(p), _ => "other".to_string() } } else { "none".to_string() };
+            Some(format!("{} {}; {} {} {}", col.len(), ops.join(";"), kind, data, pres))
+        }
         _ => None,
     }
 }
